@@ -3,6 +3,7 @@ package main
 import (
 	"fmt"
 	"io"
+	"os"
 	"runtime"
 	"sort"
 	"strings"
@@ -397,6 +398,79 @@ func scenarioCloseDuringPass(c *Ctx, cached bool) {
 	c.Cov.Schedules++
 }
 
+// D14 (found on Model/ScopeLife): an application thread is inside the re-acquire visit of a CLOSED subscope (it holds
+// the shard's read lock, has swapped the subscope's counter and is parked right before the reporter call) when the
+// root's Close runs: Close's final pass finds the subscope's cell empty, Flush is called, the purge then waits for
+// the read lock; the application thread delivers the value AFTER that final Flush.  "Everything recorded before
+// Close is delivered, followed by a Flush, before Close returns": the delivery must be followed by a Flush.
+func scenarioReacquireDuringClose(c *Ctx, cached, closable bool) {
+	w := newWorld(cached, 0, 1, closable)
+	x := w.root.SubScope("x")
+	cx := x.Counter("c")
+	w.inc(cx, "x.c", 5) // recorded before the root's Close is called
+	s := NewSched(nil)
+	lastVisit := ""
+	s.ParkOnT = func(th, l string) bool {
+		switch th {
+		case "U":
+			return l == "registry.subscope.pre-rlock" || l == "counter.deliver"
+		case "C":
+			return l == "registry.visit" || l == "registry.pre-closed-read"
+		}
+		return false
+	}
+	s.Timeout = 300 * time.Millisecond
+	// U enters Subscope("x") before the root is closed and is parked after the root-closed check
+	U := s.Spawn("U", func() { w.root.SubScope("x") })
+	l0 := runUntil(s, U, func(l, _ string) bool { return l == "registry.subscope.pre-rlock" })
+	w.note("U (Subscope x) parked at %s", l0)
+	// the root's Close: CAS, close(done), final pass reads x's closed flag (still false) and is parked before reporting x
+	C := s.Spawn("C", func() { w.closer.Close() })
+	l1 := runUntil(s, C, func(l, a string) bool {
+		if l == "registry.visit" {
+			lastVisit = a
+		}
+		return l == "registry.pre-closed-read" && strings.HasPrefix(lastVisit, "x")
+	})
+	w.note("C (root Close) parked at %s visiting %q (flag read: live)", l1, lastVisit)
+	x.(io.Closer).Close()
+	w.note("close x")
+	// U finds x closed: re-acquire visit, swaps the 5, parked before the reporter call (holds the shard's read lock)
+	l2 := runUntil(s, U, func(l, _ string) bool { return l == "counter.deliver" })
+	w.note("U parked at %s: x.c swapped, not yet handed to the reporter", l2)
+	// C: reports x (nothing left), no removal (it read the flag as live), end of pass, Flush; purge waits for U's read lock
+	l3 := runUntil(s, C, never)
+	w.note("C %s", l3)
+	l4 := runUntil(s, U, never)
+	w.note("U %s", l4)
+	if !C.Done {
+		l5, _ := s.Step(C)
+		w.note("C %s", l5)
+	}
+	s.Finish()
+	_, order := w.delivered()
+	w.note("reporter log %v", order)
+	line := strings.Join(w.trace, " | ")
+	lastDel, lastFlush := -1, -1
+	for i, e := range order {
+		if e == "flush" {
+			lastFlush = i
+		} else if e != "close" {
+			lastDel = i
+		}
+	}
+	if lastDel > lastFlush {
+		c.Cov.Fail(Failure{Kind: "violated", Clause: "delivered-then-flushed-before-close-returns", Signature: "reacquire-visit-delivers-after-final-flush", Line: line,
+			Reply: fmt.Sprintf("a value recorded before Close reached the reporter after the last Flush: %v", order)})
+	}
+	w.checkConservation(c, "C08", "reacquire-visit-delivers-after-final-flush")
+	if os.Getenv("VERIF_DEBUG") != "" {
+		fmt.Fprintln(os.Stderr, line)
+	}
+	c.Cov.Eval(line, true)
+	c.Cov.Schedules++
+}
+
 // everything recorded before Close delivered, then flush, then exactly one reporter close, nothing after; loop goroutine gone
 func checkCloseBarrier(c *Ctx, w *world, sig string) {
 	w.checkConservation(c, "C08", sig)
@@ -480,6 +554,8 @@ func suiteC08Conc(c *Ctx) {
 	c.Cov.Rule = "scripted schedule (Close called while a periodic pass of the real report loop goroutine is part-way through the registry; Close parked between close(done) and its final pass) and free-running stress (4 recording goroutines, ticker 20-200us, 1-8 shards, plain and cached closable reporters) ; oracle: conservation of everything recorded before Close, last calls are Flush then exactly one reporter Close, nothing afterwards, second Close nil and silent, SubScope after Close inert, no report-loop goroutine left; every case nontrivial; distinct by trace"
 	for _, cached := range []bool{false, true} {
 		scenarioCloseDuringPass(c, cached)
+		scenarioReacquireDuringClose(c, cached, true)
+		scenarioReacquireDuringClose(c, cached, false)
 	}
 	n := c.N(40, 600)
 	for i := 0; i < n; i++ {
